@@ -1181,6 +1181,12 @@ func (ex *Exec) frameCheck(rec *recorder, pos token.Pos) {
 		if allowedAll[k] {
 			continue
 		}
+		if strings.HasPrefix(k, "G$#") {
+			// a ghost with a composite result: all(g) covers every leaf g.x
+			if d := strings.Index(k, "."); d > 0 && allowedAll[k[:d]] {
+				continue
+			}
+		}
 		srt := ex.eng.heapSortOf(k)
 		if strings.Contains(k, "#") {
 			// lock state fields are ghost-like: a function may leave its own locks as found
